@@ -314,8 +314,8 @@ structure DTx where
   info : Info
   strand : Strand
   span : Blk
-  exons : List (Blk × Info)
-  cds : List (Blk × CDSFrame × Info)
+  exons : List (Blk × Strand × Info)
+  cds : List (Blk × Strand × CDSFrame × Info)
   deriving Repr, DecidableEq, Inhabited
 
 structure DGene where
@@ -329,7 +329,7 @@ structure DFeat where
   info : Info
   strand : Strand
   span : Blk
-  regions : List (Blk × Info)
+  regions : List (Blk × Strand × Info)
   deriving Repr, DecidableEq, Inhabited
 
 structure DFc where
@@ -364,15 +364,15 @@ def decodeTx (off : Nat) (rows : List PRow) (t : PRow) : DTx :=
   let ex := sortBy (fun a b : PRow => blkLe2 (a.blk off) (b.blk off)) (childrenOf rows tExon t.id)
   let cd := sortBy (fun a b : PRow => blkLe2 (a.blk off) (b.blk off)) (childrenOf rows tCDS t.id)
   { info := t.info, strand := t.strand, span := t.blk off,
-    exons := ex.map fun r => (r.blk off, r.info),
+    exons := ex.map fun r => (r.blk off, r.strand, r.info),
     cds := cd.filterMap fun r =>
       match r.phase with
-      | some p => (frameOfPhase p).map fun f => (r.blk off, f, r.info)
+      | some p => (frameOfPhase p).map fun f => (r.blk off, r.strand, f, r.info)
       | none => none }
 
 def decodeFeat (off : Nat) (rows : List PRow) (f : PRow) : DFeat :=
   let sub := sortBy (fun a b : PRow => blkLe2 (a.blk off) (b.blk off)) (childrenOf rows tSub f.id)
-  { info := f.info, strand := f.strand, span := f.blk off, regions := sub.map fun r => (r.blk off, r.info) }
+  { info := f.info, strand := f.strand, span := f.blk off, regions := sub.map fun r => (r.blk off, r.strand, r.info) }
 
 /-- The reference decoder.  Genes = `gene` rows without Parent, in file order; a gene's transcripts = the
     `transcript` rows naming it as Parent, in file order; a transcript's exons / CDS blocks = the `exon` / `CDS`
@@ -463,11 +463,11 @@ def expectTx (g : SGene) (t : STx) : DTx :=
   let tq := expectAttrs (txQuals g t)
   { info := ⟨some t.guid, optName t.sym, tq⟩, strand := t.strand, span := spanOf t.exons,
     exons := (zipIdx t.exons).map fun p =>
-      (p.2, ⟨some (['e', 'x', 'o', 'n', '-'] ++ t.guid ++ ['-'] ++ natStr p.1), optName t.sym, tq⟩),
+      (p.2, t.strand, ⟨some (['e', 'x', 'o', 'n', '-'] ++ t.guid ++ ['-'] ++ natStr p.1), optName t.sym, tq⟩),
     cds := match t.cds with
       | none => []
       | some c => (zipIdx (c.blocks.zip c.frames)).map fun p =>
-          (p.2.1, p.2.2, ⟨some (c.guid ++ ['-'] ++ natStr p.1), optName t.pid, expectAttrs (cdsQuals g t)⟩) }
+          (p.2.1, t.strand, p.2.2, ⟨some (c.guid ++ ['-'] ++ natStr p.1), optName t.pid, expectAttrs (cdsQuals g t)⟩) }
 
 def expectGene (g : SGene) : DGene :=
   { info := ⟨some g.guid, optName g.sym, expectAttrs (geneQuals g)⟩, strand := .plus,
@@ -491,7 +491,7 @@ def expectFeat (c : SFc) (f : SFeat) : DFeat :=
   let fq := expectAttrs (featQuals c f)
   { info := ⟨some f.guid, optName f.name, fq⟩, strand := f.strand, span := spanOf f.blocks,
     regions := (zipIdx f.blocks).map fun p =>
-      (p.2, ⟨some (['f', 'e', 'a', 't', 'u', 'r', 'e', '-'] ++ f.guid ++ ['-'] ++ natStr p.1), optName f.name, fq⟩) }
+      (p.2, f.strand, ⟨some (['f', 'e', 'a', 't', 'u', 'r', 'e', '-'] ++ f.guid ++ ['-'] ++ natStr p.1), optName f.name, fq⟩) }
 
 def expectFc (c : SFc) : DFc :=
   { info := ⟨some c.guid, optName c.name, expectAttrs (fcQuals c)⟩, strand := .plus,
